@@ -14,7 +14,7 @@
 (* is skipped, so one run reports the first deviation of every trace.      *)
 (* Focus selects the property whose clauses are enforced.                  *)
 (***************************************************************************)
-EXTENDS Registry, Json
+EXTENDS GCImpl, Json
 
 CONSTANTS Focus      \* set of property ids, e.g. {"C02"}
 
@@ -240,10 +240,22 @@ CFaultSafe(e) ==
      /\ \A x \in ObsT(e, r) : (x[1] \in DOMAIN tag[r] /\ tag[r][x[1]] = x[2]) \/ (x[1] \in FTag(op) /\ (x[2] \in A \/ both)) \/ (both /\ x[2] \in RM)
      /\ (both /\ e.fault.acked /\ r = op.repo) => FAcked(op, ObsB(e, r), ObsM(e, r), ObsT(e, r))
 
+\* DRIFT (reported, never a verdict): the collection of a directory store against GCImpl, the transcription of the collector
+\* that MCGCImpl compares with the policy on every shape of a small universe.  The index view is what index.json held at the
+\* previous event; whether a referrers response is recent is not observed, so both extremes are tried.
+HasPrevDisk(r) == "none" \notin DOMAIN prevobs /\ r \in DOMAIN prevobs /\ "disk" \in DOMAIN prevobs[r] /\ prevobs[r].disk.index = "ok"
+ViewOf(r, y) == LET E == S(prevobs[r].disk.entries) IN
+                [top |-> {[d |-> x.d, t |-> x.t # ""] : x \in {z \in E : z.s = "" /\ z.d \in Digs}},
+                 resp |-> {[s |-> x.s, y |-> y] : x \in {z \in E : z.s # ""}}]
+CGCImpl(e) ==
+  \A r \in GCRepos(e) : (env.store = "dir" /\ HasPrevDisk(r) /\ e.op.op # "Restart") =>
+     \/ ObsB(e, r) = ImplKeptBlobs(r, ViewOf(r, FALSE))
+     \/ ObsB(e, r) = ImplKeptBlobs(r, ViewOf(r, TRUE))
+
 Clauses(e) ==
   { <<"resp", CResp(e)>>, <<"tagsresp", CTagsResp(e)>>, <<"integrity", CIntegrity(e)>>, <<"sync.blobs", CSyncBlobs(e)>>,
     <<"sync.mans", CSyncMans(e)>>, <<"sync.tags", CSyncTags(e)>>, <<"taglist", CTagList(e)>>,
-    <<"refs", CRefs(e)>>, <<"refs.foreign", CRefsForeign(e)>>, <<"sess", CSess(e)>>, <<"sess.evict", CEvict(e)>>, <<"noerr", CNoErr(e)>>, <<"fault.safe", CFaultSafe(e)>>,
+    <<"refs", CRefs(e)>>, <<"refs.foreign", CRefsForeign(e)>>, <<"sess", CSess(e)>>, <<"sess.evict", CEvict(e)>>, <<"noerr", CNoErr(e)>>, <<"fault.safe", CFaultSafe(e)>>, <<"gc.impl", CGCImpl(e)>>,
     <<"gc.safe", CGCSafe(e)>>, <<"gc.exact", CGCExact(e)>>, <<"gc.idem", CGCIdem(e)>>, <<"gc.index", CGCIndex(e)>>,
     <<"disk.layout", CDiskLayout(e)>>, <<"disk.index", CDiskIndex(e)>>, <<"disk.files", CDiskFiles(e)>>,
     <<"ro.frozen", CROFrozen(e)>>, <<"ro.refused", CRORefused(e)>>, <<"confined", CConfined(e)>> }
@@ -258,7 +270,7 @@ Enforced ==
     C08 |-> {"resp", "sess", "sess.evict", "sync.blobs", "disk.files", "noerr"},
     C05 |-> {"gc.safe", "integrity", "sync.blobs", "sync.mans", "sync.tags", "taglist", "noerr"},
     C10 |-> {"disk.layout", "disk.index", "disk.files", "sync.blobs", "sync.mans", "sync.tags", "taglist", "refs",
-             "integrity", "gc.safe", "noerr"},
+             "integrity", "gc.safe", "noerr", "gc.impl"},
     C14 |-> {"ro.frozen", "ro.refused", "resp", "sync.blobs", "sync.mans", "sync.tags", "taglist", "refs", "noerr"},
     C14F |-> {"ro.frozen", "ro.refused", "noerr"},      \* pre-existing foreign directories: content outside the catalogue
     C16 |-> {"confined", "resp", "sync.blobs", "sync.mans", "sync.tags", "taglist", "refs", "refs.foreign", "sess", "noerr"},
@@ -266,7 +278,7 @@ Enforced ==
     \* histories with one failing file system call (harness command `fault`), used by the checks of C02 and C08
     FAULT |-> {"fault.safe", "integrity", "resp", "sync.blobs", "sync.mans", "sync.tags", "taglist", "refs", "sess",
                "disk.layout", "disk.index", "disk.files", "noerr"},
-    C06 |-> {"gc.exact", "gc.idem", "gc.safe", "gc.index", "sync.blobs", "sync.mans", "sync.tags", "taglist", "noerr"} ]
+    C06 |-> {"gc.exact", "gc.idem", "gc.safe", "gc.index", "sync.blobs", "sync.mans", "sync.tags", "taglist", "noerr", "gc.impl"} ]
 
 Active == UNION {Enforced[p] : p \in Focus \cap DOMAIN Enforced}
 
@@ -355,7 +367,7 @@ TraceOp ==
              /\ fails' = IF f = {} THEN fails
                          ELSE Append(fails, [trace |-> env.trace, i |-> e.i, line |-> l, op |-> e.op.op, clauses |-> f,
                                              detail |-> Detail(e)])
-             /\ skip' = (f # {})
+             /\ skip' = (f \ {"gc.impl"} # {})      \* (drift does not end the validation of a trace)
           /\ stats' = [stats EXCEPT !.events = @ + 1, !.checked = @ + 1]
 
 \* C09: a crash image taken right before file system call n of the last operation, opened by a new server.
